@@ -7,7 +7,6 @@ from typing import Dict, List, Optional, Set, Tuple
 from ..cfg import CFG, Node
 from ..core import AnalysisError, Cls, Fn, Repo, call_name, calls_in, const_value, dotted, get_kw, last_attr, short, walk_no_nested
 from ..domains import conjuncts
-from ..pat import has
 from ..report import Check
 from ..terms import Poly, TermBuilder, mentions, single_atom
 from ..util import self_attr_stores
@@ -19,7 +18,8 @@ PRESERVERS = ("preserve_parameters", "shrink_preserve_parameters")
 def run(ck: Check, repo: Repo) -> None:
     ck.not_decided += ["equality of outputs after a no-op mutation or a clone (runtime values)",
                        "that parameter names stay stable across re-creation (depends on the layer builders)"]
-    ck.trusted += ["Tensor basic slicing assignment copies values element-wise", "nn.Module.named_parameters yields (name, Parameter) for registered parameters"]
+    ck.trusted += ["Tensor basic slicing assignment copies values element-wise", "nn.Module.named_parameters yields (name, Parameter) for registered parameters",
+                   "nn.Module.train / eval / to / requires_grad_ return the module they are called on"]
     ck.rule("C04.1", "preserve_parameters: for a parameter present in both networks, equal sizes copy the whole tensor; otherwise the common "
                      "range slice(0, min(old, new)) per dimension is copied with the same index on both sides, old -> new; nothing else filters parameters out")
     ck.rule("C04.2", "shrink_preserve_parameters: 1-D [:min_0] both sides; >=2-D [:min_0, :min_1] both sides; min_k = min(old_size[k], new_size[k])")
@@ -46,6 +46,8 @@ def run(ck: Check, repo: Repo) -> None:
     ck.rule("C04.11", "a rebuild does not touch the live weights before they are carried over: no function that recreate_network runs re-initialises "
                       "parameters reached through `self` (only freshly built, still local modules may be initialised)")
     _no_reinit_of_live(ck, repo)
+    from ._c04_r3 import run_r3
+    run_r3(ck, repo)
     pp = repo.fn(MB, "EvolvableModule.preserve_parameters")
     sp = repo.fn("agilerl.modules.cnn", "EvolvableCNN.shrink_preserve_parameters")
     _preserve_common(ck, repo, pp, "C04.1")
@@ -58,53 +60,94 @@ def run(ck: Check, repo: Repo) -> None:
     _clone_overrides(ck, repo)
 
 
+def _through(cfg: CFG, e: ast.AST, n: Node) -> Tuple[ast.AST, Node]:
+    """e with single-definition temporaries looked through: a local that exactly one plain binding reaches at n stands for the
+    expression it was bound to (returned with the node of that binding, where its own names have to be read)."""
+    for _ in range(8):
+        if not isinstance(e, ast.Name):
+            break
+        defs = cfg.defs_reaching(n, e.id)
+        if len(defs) != 1 or defs[0].kind != "stmt":
+            break
+        v = cfg.value_of_def(defs[0], e.id)
+        if v is None or getattr(v, "_unpack_len", None) is not None:
+            break
+        e, n = v, defs[0]
+    return e, n
+
+
 class _Roles:
-    """The locals of a preserve function, identified by what they are bound to (never by their spelling).  Only the two
-    parameters (old network, new network) are taken by position; every other name is computed:
-      key / param : the two targets of the loop `for K, P in <new>.named_parameters()`
-      table       : locals bound to dict(<old>.named_parameters())
-      old_param   : locals bound to table[key]
-      old_size    : locals bound to <old_param | table[key]>[.data].size() / .shape
-      new_size    : locals bound to param[.data].size() / .shape"""
+    """The values of a preserve function, identified by what they are bound to (never by the spelling of a local, never by the
+    syntactic form of the lookup).  Only the two parameters (old network, new network) are taken by position; every other
+    expression is classified at the CFG node where it is read, through its reaching definitions:
+      key / new   : the two targets of the loop `for K, P in <new>.named_parameters()`
+      table       : dict(<old>.named_parameters())  (also the equivalent dict comprehension)
+      old         : table[key]  /  table.get(key)  — the same-named old parameter (`.data` of a parameter keeps its role)
+      old_size    : <old>[.data].size() / .shape
+      new_size    : <new>[.data].size() / .shape
+    A local has a role when every definition reaching the use binds it to a value of that role (temporaries are looked through)."""
 
-    def __init__(self, fn: Fn):
+    CANON = {"table": "old_net_dict", "old": "old_param", "new": "param", "old_size": "old_size", "new_size": "new_size", "key": "key"}
+
+    def __init__(self, fn: Fn, cfg: CFG):
+        self.cfg = cfg
         self.old_p, self.new_p = fn.named_params[0], fn.named_params[1]
-        self.key: Optional[str] = None
-        self.param: Optional[str] = None
-        self.table: Set[str] = set()
-        self.old_param: Set[str] = set()
-        self.old_size: Set[str] = set()
-        self.new_size: Set[str] = set()
-        for n in walk_no_nested(fn.node):
-            if isinstance(n, ast.For) and isinstance(n.iter, ast.Call) and last_attr(n.iter) == "named_parameters" and dotted(n.iter.func.value) == self.new_p \
-                    and isinstance(n.target, ast.Tuple) and len(n.target.elts) == 2 and all(isinstance(x, ast.Name) for x in n.target.elts) and self.key is None:
-                self.key, self.param = n.target.elts[0].id, n.target.elts[1].id
-        binds: List[Tuple[str, ast.AST]] = []
-        for n in walk_no_nested(fn.node):
-            if isinstance(n, ast.Assign) and len(n.targets) == 1 and isinstance(n.targets[0], ast.Name):
-                binds.append((n.targets[0].id, n.value))
-            elif isinstance(n, ast.AnnAssign) and isinstance(n.target, ast.Name) and n.value is not None:
-                binds.append((n.target.id, n.value))
-        for name, v in binds:
-            if isinstance(v, ast.Call) and call_name(v) == "dict" and len(v.args) == 1 and isinstance(v.args[0], ast.Call) \
-                    and last_attr(v.args[0]) == "named_parameters" and dotted(v.args[0].func.value) == self.old_p:
-                self.table.add(name)
-        for name, v in binds:
-            if self.is_old_entry(v):
-                self.old_param.add(name)
-        for name, v in binds:
-            base = self._sized(v)
-            if base is None:
-                continue
-            if isinstance(base, ast.Name) and base.id == self.param:
-                self.new_size.add(name)
-            elif (isinstance(base, ast.Name) and base.id in self.old_param) or self.is_old_entry(base):
-                self.old_size.add(name)
+        self.loop: Optional[ast.For] = None
+        for n in cfg.live_nodes():
+            if n.kind == "for" and self.loop is None and self._named_parameters_of(n.ast.iter, n, self.new_p) \
+                    and isinstance(n.ast.target, ast.Tuple) and len(n.ast.target.elts) == 2 and all(isinstance(x, ast.Name) for x in n.ast.target.elts):
+                self.loop = n.ast
 
-    def is_old_entry(self, e: ast.AST) -> bool:
-        """table[key]"""
-        return isinstance(e, ast.Subscript) and isinstance(e.value, ast.Name) and e.value.id in self.table \
-            and isinstance(e.slice, ast.Name) and e.slice.id == self.key
+    def _named_parameters_of(self, e: ast.AST, n: Node, net: str) -> bool:
+        """<net>.named_parameters()  (the network possibly through a temporary)"""
+        return isinstance(e, ast.Call) and isinstance(e.func, ast.Attribute) and e.func.attr == "named_parameters" and not e.args and not e.keywords \
+            and dotted(_through(self.cfg, e.func.value, n)[0]) == net
+
+    def kind(self, e: Optional[ast.AST], n: Node, _d: int = 0) -> Optional[str]:
+        """The role of expression e read at node n (None: no role)."""
+        if e is None or _d > 12:
+            return None
+        if isinstance(e, ast.Name):
+            kinds: Set[Optional[str]] = set()
+            for d in self.cfg.defs_reaching(n, e.id):
+                if d.kind == "for" and self.loop is not None and d.ast is self.loop:
+                    k, p = self.loop.target.elts
+                    kinds.add("key" if e.id == k.id else "new" if e.id == p.id else None)
+                elif d.kind == "stmt":
+                    v = self.cfg.value_of_def(d, e.id)
+                    kinds.add(self.kind(v, d, _d + 1) if v is not None and getattr(v, "_unpack_len", None) is None else None)
+                else:
+                    kinds.add(None)
+            return next(iter(kinds)) if len(kinds) == 1 else None
+        if isinstance(e, ast.Attribute) and e.attr == "data":
+            k = self.kind(e.value, n, _d + 1)
+            return k if k in ("old", "new") else None
+        if isinstance(e, ast.Call) and call_name(e) == "dict" and len(e.args) == 1 and not e.keywords:
+            return "table" if self._named_parameters_of(_through(self.cfg, e.args[0], n)[0], n, self.old_p) else None
+        if isinstance(e, ast.DictComp) and len(e.generators) == 1 and not e.generators[0].ifs and self._named_parameters_of(e.generators[0].iter, n, self.old_p):
+            t = e.generators[0].target
+            ok = isinstance(t, ast.Tuple) and len(t.elts) == 2 and all(isinstance(x, ast.Name) for x in t.elts) \
+                and dotted(e.key) == t.elts[0].id and dotted(e.value) == t.elts[1].id
+            return "table" if ok else None
+        if isinstance(e, ast.Subscript):
+            # table[key]
+            if self.kind(e.value, n, _d + 1) == "table" and self.kind(e.slice, n, _d + 1) == "key":
+                return "old"
+            return None
+        if isinstance(e, ast.Call) and isinstance(e.func, ast.Attribute) and e.func.attr == "get" and not e.keywords and 1 <= len(e.args) <= 2:
+            # table.get(key) / table.get(key, None): the same entry, None standing for 'absent'
+            if self.kind(e.func.value, n, _d + 1) == "table" and self.kind(e.args[0], n, _d + 1) == "key" \
+                    and (len(e.args) == 1 or (isinstance(e.args[1], ast.Constant) and e.args[1].value is None)):
+                return "old"
+            return None
+        b = self._sized(e)
+        if b is not None:
+            return {"old": "old_size", "new": "new_size"}.get(self.kind(b, n, _d + 1))
+        return None
+
+    def has_table(self) -> bool:
+        """some live binding holds the lookup table of the OLD network's parameters"""
+        return any(n.kind == "stmt" and isinstance(n.ast, (ast.Assign, ast.AnnAssign)) and self.kind(n.ast.value, n) == "table" for n in self.cfg.live_nodes())
 
     @staticmethod
     def _sized(v: ast.AST) -> Optional[ast.AST]:
@@ -119,47 +162,65 @@ class _Roles:
             b = b.value
         return b
 
-    def is_rank_of_param(self, e: ast.AST) -> bool:
-        """len(param[.data].size()) / len(param.shape) / param.dim() / param.ndim"""
+    def is_rank_of_param(self, e: ast.AST, n: Node) -> bool:
+        """len(param[.data].size()) / len(param.shape) / param[.data].dim() / param[.data].ndim"""
+        b = None
         if isinstance(e, ast.Call) and call_name(e) == "len" and len(e.args) == 1:
-            b = self._sized(e.args[0])
-            return isinstance(b, ast.Name) and b.id == self.param
-        return False
+            return self.kind(e.args[0], n) == "new_size"
+        if isinstance(e, ast.Call) and isinstance(e.func, ast.Attribute) and e.func.attr == "dim" and not e.args and not e.keywords:
+            b = e.func.value
+        elif isinstance(e, ast.Attribute) and e.attr == "ndim":
+            b = e.value
+        return b is not None and self.kind(b, n) == "new"
 
-    def sizes_equal(self, a: ast.AST) -> Optional[bool]:
-        """True for `old_size == new_size`, False for `old_size != new_size` (either order), None otherwise."""
-        if isinstance(a, ast.Compare) and len(a.ops) == 1 and isinstance(a.ops[0], (ast.Eq, ast.NotEq)) \
-                and isinstance(a.left, ast.Name) and isinstance(a.comparators[0], ast.Name):
-            l, r = a.left.id, a.comparators[0].id
-            if (l in self.old_size and r in self.new_size) or (l in self.new_size and r in self.old_size):
-                return isinstance(a.ops[0], ast.Eq)
+    def sizes_equal(self, a: ast.AST, n: Node) -> Optional[bool]:
+        """True for `old_size == new_size`, False for `old_size != new_size` (either order, sizes named or written out), None otherwise."""
+        if isinstance(a, ast.Compare) and len(a.ops) == 1 and isinstance(a.ops[0], (ast.Eq, ast.NotEq)) and self.is_size_pair([a.left, a.comparators[0]], n):
+            return isinstance(a.ops[0], ast.Eq)
         return None
 
-    def is_name_or_shape_test(self, a: ast.AST) -> bool:
-        """The conjunct consults the old lookup table, one of the two sizes, or the rank of the new parameter:
-        these are the filters 'by name and shape' the property allows."""
+    def is_presence_test(self, a: ast.AST, n: Node) -> bool:
+        """`<old entry> is None` / `is not None`: the lookup result consulted for 'is there a parameter of that name' (what `key in table` asks)."""
+        if isinstance(a, ast.Compare) and len(a.ops) == 1 and isinstance(a.ops[0], (ast.Is, ast.IsNot)):
+            l, r = a.left, a.comparators[0]
+            if isinstance(l, ast.Constant) and l.value is None:
+                l, r = r, l
+            return isinstance(r, ast.Constant) and r.value is None and self.kind(l, n) == "old" and not isinstance(l, ast.Attribute)
+        return False
+
+    def is_name_or_shape_test(self, a: ast.AST, n: Node) -> bool:
+        """The conjunct consults the old lookup table (membership, or the looked-up entry compared with None), one of the two sizes,
+        or the rank of the new parameter: these are the filters 'by name and shape' the property allows."""
+        if self.is_presence_test(a, n):
+            return True
         for x in ast.walk(a):
-            if isinstance(x, ast.Name) and x.id in (self.table | self.old_size | self.new_size):
+            if isinstance(x, (ast.Name, ast.Call, ast.Attribute)) and self.kind(x, n) in ("table", "old_size", "new_size"):
                 return True
-            if self.is_rank_of_param(x):
+            if self.is_rank_of_param(x, n):
                 return True
         return False
 
-    def is_size_pair(self, names: List[str]) -> bool:
-        return len(names) == 2 and ((names[0] in self.old_size and names[1] in self.new_size) or (names[1] in self.old_size and names[0] in self.new_size))
+    def is_size_pair(self, es: List[ast.AST], n: Node) -> bool:
+        return len(es) == 2 and {self.kind(es[0], n), self.kind(es[1], n)} == {"old_size", "new_size"}
 
-    def canonical_text(self, a: ast.AST) -> str:
+    def filter_text(self, a: ast.AST, pol: bool, n: Node) -> str:
+        """The conjunct as it holds on the guarded path, in one spelling: a false membership / identity / equality test is written
+        with the negated operator (`'x' in k` known false -> `'x' not in k`), any other false conjunct as `not <conjunct>`."""
+        from ..domains import negate_op
+        if not pol and isinstance(a, ast.Compare) and len(a.ops) == 1 and isinstance(a.ops[0], (ast.In, ast.NotIn, ast.Is, ast.IsNot, ast.Eq, ast.NotEq)):
+            a, pol = ast.copy_location(ast.Compare(left=a.left, ops=[negate_op(a.ops[0])()], comparators=a.comparators), a), True
+        return ("" if pol else "not ") + self.canonical_text(a, n)
+
+    def canonical_text(self, a: ast.AST, n: Node) -> str:
         """Text of a with every role-bearing local written under its role's name (so that reports and the construct key of a
         finding do not depend on how the function spells its locals; identity on the tree the names were taken from)."""
         import copy
         m: Dict[str, str] = {}
-        for names, canon in ((self.table, "old_net_dict"), (self.old_param, "old_param"), (self.old_size, "old_size"), (self.new_size, "new_size")):
-            for x in names:
-                m[x] = canon
-        if self.key:
-            m[self.key] = "key"
-        if self.param:
-            m[self.param] = "param"
+        for x in ast.walk(a):
+            if isinstance(x, ast.Name):
+                k = self.kind(x, n)
+                if k is not None:
+                    m[x.id] = self.CANON[k]
         t = copy.deepcopy(a)
         for x in ast.walk(t):
             if isinstance(x, ast.Name) and x.id in m:
@@ -173,23 +234,22 @@ def _preserve_common(ck: Check, repo: Repo, fn: Fn, rule: str) -> None:
     old_p, new_p = params[0], params[1]
     cfg = CFG(fn.node)
     tb = TermBuilder(repo, fn, cfg=cfg, depth=0)
-    roles = _Roles(fn)
+    roles = _Roles(fn, cfg)
     all_loops = [n for n in cfg.live_nodes() if n.kind == "for"]
     loops = [n for n in all_loops if isinstance(n.ast.iter, ast.Call) and last_attr(n.ast.iter) == "named_parameters"]
-    ok = len(loops) == 1 and dotted(loops[0].ast.iter.func.value) == new_p
+    ok = len(loops) == 1 and dotted(_through(cfg, loops[0].ast.iter.func.value, loops[0])[0]) == new_p
     ck.ob(rule, fn, loops[0].ast.iter if loops else fn.node, ok, f"{fn.name}: iterates (once) over the parameters of the NEW network")
     in_param_loop = {id(x) for l in loops for x in ast.walk(l.ast)}
-    src = ast.unparse(fn.node)
-    ck.ob(rule, fn, fn.node, f"dict({old_p}.named_parameters())" in src, f"{fn.name}: looks old parameters up by name in the OLD network", construct=f"{fn.name}: old lookup table")
+    ck.ob(rule, fn, fn.node, roles.has_table(), f"{fn.name}: looks old parameters up by name in the OLD network", construct=f"{fn.name}: old lookup table")
     rets = [n for n in cfg.live_nodes() if n.kind == "stmt" and isinstance(n.ast, ast.Return)]
-    ck.ob(rule, fn, rets[0].ast if rets else fn.node, bool(rets) and all(dotted(r.ast.value) == new_p for r in rets), f"{fn.name}: returns the new network")
+    ck.ob(rule, fn, rets[0].ast if rets else fn.node, bool(rets) and all(_is_net(cfg, r.ast.value, r, new_p) for r in rets), f"{fn.name}: returns the new network")
     # whole-tensor copy when sizes are equal
     whole = [n for n in cfg.live_nodes() if n.kind == "stmt" and isinstance(n.ast, ast.Assign) and isinstance(n.ast.targets[0], ast.Attribute)
              and n.ast.targets[0].attr == "data" and not isinstance(n.ast.targets[0].value, ast.Subscript) and id(n.ast) in in_param_loop]
     ok = False
     for n in whole:
         lt, rt = tb.term(n.ast.targets[0].value, n), tb.term(n.ast.value, n)
-        g = [(roles.sizes_equal(a), pol) for gg, pol, _ in cfg.guards_at(n) for a, pol in conjuncts(gg, pol)]
+        g = [(roles.sizes_equal(a, t), pol) for gg, pol, t in cfg.guards_at(n) for a, pol in conjuncts(gg, pol)]
         eq = any(same is not None and same == pol for same, pol in g)
         ok = _from(tb, lt, new_p) and _from(tb, rt, old_p) and not _from(tb, rt, new_p) and eq
         ck.ob(rule, fn, n.ast, ok, f"{fn.name}: equal sizes -> the new parameter receives the old parameter's data (old -> new)")
@@ -227,18 +287,18 @@ def _preserve_common(ck: Check, repo: Repo, fn: Fn, rule: str) -> None:
                      "network would start from fresh running statistics and compute a different function in eval mode",
               construct=f"{fn.name}: buffers carried over")
     # train / eval mode: a freshly built network is in training mode; the one it replaces may be in evaluation mode (BatchNorm, dropout, noisy layers)
-    mode = has(fn.node, f"{new_p}.train({old_p}.training)") or has(fn.node, f"{new_p}.train(mode={old_p}.training)")
+    mode = _mode_carried_over(cfg, old_p, new_p)
     ck.ob(rule, fn, fn.node, mode, f"{fn.name}: the rebuilt network is put into the train / eval mode of the network it replaces",
           detail="the new network stays in training mode: after module.eval() a mutation that leaves the architecture unchanged makes a BatchNorm CNN use batch statistics "
                  "again (eval outputs differed by 0.56 in the probe)",
           construct=f"{fn.name}: mode carried over")
     wextra: Set[str] = set()
     for n in whole:
-        for gg, pol, _ in cfg.guards_at(n):
+        for gg, pol, t in cfg.guards_at(n):
             for a, apol in conjuncts(gg, pol):
-                if roles.is_name_or_shape_test(a):
+                if roles.is_name_or_shape_test(a, t):
                     continue
-                wextra.add(("" if apol else "not ") + roles.canonical_text(a))
+                wextra.add(roles.filter_text(a, apol, t))
     for e in sorted(wextra) or [None]:
         ck.ob(rule, fn, whole[0].ast if whole else fn.node, e is None,
               f"{fn.name}: a parameter whose shape did not change is carried over whatever its name",
@@ -249,11 +309,11 @@ def _preserve_common(ck: Check, repo: Repo, fn: Fn, rule: str) -> None:
     sliced = [n for n in cfg.live_nodes() if n.kind == "stmt" and isinstance(n.ast, ast.Assign) and isinstance(n.ast.targets[0], ast.Subscript) and id(n.ast) in in_param_loop]
     extra: Set[str] = set()
     for n in sliced:
-        for gg, pol, _ in cfg.guards_at(n):
+        for gg, pol, t in cfg.guards_at(n):
             for a, apol in conjuncts(gg, pol):
-                if roles.is_name_or_shape_test(a):
+                if roles.is_name_or_shape_test(a, t):
                     continue
-                extra.add(("" if apol else "not ") + roles.canonical_text(a))
+                extra.add(roles.filter_text(a, apol, t))
     for e in sorted(extra) or [None]:
         ck.ob(rule, fn, fn.node, e is None,
               f"{fn.name}: no filter other than name and shape decides whether a resized parameter keeps its common range",
@@ -278,6 +338,40 @@ def _buffer_layer_sites(repo: Repo) -> List[str]:
     return out
 
 
+def _is_net(cfg: CFG, e: Optional[ast.AST], n: Node, net: str) -> bool:
+    """e denotes the network held by parameter `net`: the parameter itself, a temporary bound to it, or the result of one of the
+    nn.Module methods that return the module they are called on."""
+    for _ in range(4):
+        if e is None:
+            return False
+        e, n = _through(cfg, e, n)
+        if isinstance(e, ast.Call) and isinstance(e.func, ast.Attribute) and e.func.attr in ("train", "eval", "to", "requires_grad_"):
+            e = e.func.value
+            continue
+        break
+    return isinstance(e, ast.Name) and e.id == net and all(d.kind == "entry" for d in cfg.defs_reaching(n, net))
+
+
+def _mode_carried_over(cfg: CFG, old_p: str, new_p: str) -> bool:
+    """Some live statement puts the new network into the mode of the old one: `<new>.train(<old>.training)` (positionally or as `mode=`,
+    either operand possibly through a temporary), or — the new network being freshly built, hence in training mode —
+    `<new>.eval()` / `<new>.train(False)` executed exactly when `<old>.training` is false."""
+    for c in calls_in(cfg.fn):
+        n = cfg.node_of(c)
+        if n is None or not isinstance(c.func, ast.Attribute):
+            continue
+        if dotted(_through(cfg, c.func.value, n)[0]) != new_p or any(k.arg != "mode" for k in c.keywords) or len(c.args) + len(c.keywords) > 1:
+            continue
+        arg = get_kw(c, "mode", 0)
+        if c.func.attr == "train" and arg is not None and dotted(_through(cfg, arg, n)[0]) == f"{old_p}.training":
+            return True
+        if (c.func.attr == "eval" and arg is None) or (c.func.attr == "train" and const_value(arg) is False):
+            g = [(dotted(_through(cfg, a, t)[0]), pol) for gg, gpol, t in cfg.guards_at(n) for a, pol in conjuncts(gg, gpol)]
+            if g == [(f"{old_p}.training", False)]:
+                return True
+    return False
+
+
 def _from(tb: TermBuilder, p: Poly, param: str, _d: int = 0) -> bool:
     """Does the value derive from `param`?  (index expressions of subscripts are not followed: a key taken from the
     new network used to look a value up in the old network's table does not make the value 'new')"""
@@ -289,7 +383,9 @@ def _from(tb: TermBuilder, p: Poly, param: str, _d: int = 0) -> bool:
             continue
         if a.kind == "param" and a.name == param:
             return True
-        subs = a.sub[:1] if a.kind == "idx" else a.sub
+        # a mapping lookup m[k] / m.get(k[, default]) takes its value from the mapping (and the default), not from the key
+        subs = a.sub[:1] if a.kind == "idx" else a.sub[:1] + a.sub[2:] if a.kind == "call" and a.name == "get" and isinstance(a.node, ast.Call) \
+            and isinstance(a.node.func, ast.Attribute) and 2 <= len(a.sub) <= 3 and not a.node.keywords else a.sub
         if any(_from(tb, s_, param, _d + 1) for s_ in subs):
             return True
     return False
@@ -299,45 +395,59 @@ def _preserve_slices(ck: Check, repo: Repo, fn: Fn) -> None:
     cfg = CFG(fn.node)
     tb = TermBuilder(repo, fn, cfg=cfg, depth=0)
     old_p, new_p = fn.named_params[0], fn.named_params[1]
-    roles = _Roles(fn)
+    roles = _Roles(fn, cfg)
     sliced = [n for n in cfg.live_nodes() if n.kind == "stmt" and isinstance(n.ast, ast.Assign) and isinstance(n.ast.targets[0], ast.Subscript)]
     ck.floor("C04.1", len(sliced), 1, "sliced copy in preserve_parameters", fn=fn)
     for n in sliced:
-        t, v = n.ast.targets[0], n.ast.value
-        ok = isinstance(v, ast.Subscript) and ast.unparse(t.slice) == ast.unparse(v.slice)
+        t = n.ast.targets[0]
+        v, vn = _through(cfg, n.ast.value, n)  # the value read from the old tensor, directly or through a temporary
+        ok = isinstance(v, ast.Subscript) and _same_index(cfg, t.slice, n, v.slice, vn)
         ck.ob("C04.1", fn, n.ast, ok, "the same index expression is used on the new and the old tensor", detail=f"[{short(t.slice, 40)}] vs [{short(getattr(v, 'slice', v), 40)}]")
-        lt, rt = tb.term(t.value, n), tb.term(v.value if isinstance(v, ast.Subscript) else v, n)
+        lt, rt = tb.term(t.value, n), tb.term(v.value if isinstance(v, ast.Subscript) else v, vn)
         ck.ob("C04.1", fn, n.ast, _from(tb, lt, new_p) and not _from(tb, lt, old_p) and _from(tb, rt, old_p) and not _from(tb, rt, new_p),
               "values flow from the old network's parameter into the new network's parameter")
-        # the index: tuple(slice(0, min(o, n)) for o, n in zip(old_size, new_size))
-        idx = t.slice
-        d = None
-        if isinstance(idx, ast.Name):
-            defs = cfg.defs_reaching(n, idx.id)
-            d = cfg.value_of_def(defs[0], idx.id) if len(defs) == 1 else None
+        # the index: tuple(slice(0, min(o, n)) for o, n in zip(old_size, new_size)), written in place or bound to a local first
+        d, dn = _through(cfg, t.slice, n)
+        if isinstance(d, ast.Name):
+            d = None
         gen = None
         if isinstance(d, ast.Call) and call_name(d) == "tuple" and d.args and isinstance(d.args[0], (ast.GeneratorExp, ast.ListComp)):
             gen = d.args[0]
         ok = gen is not None and len(gen.generators) == 1 and isinstance(gen.generators[0].iter, ast.Call) and call_name(gen.generators[0].iter) == "zip"
         if ok:
             g = gen.generators[0]
-            za = [dotted(a) for a in g.iter.args]
             tv = [x.id for x in g.target.elts] if isinstance(g.target, ast.Tuple) else []
             e = gen.elt
-            ok = roles.is_size_pair(za) and len(tv) == 2 and isinstance(e, ast.Call) and call_name(e) == "slice" and len(e.args) == 2 \
+            ok = roles.is_size_pair(list(g.iter.args), dn) and len(tv) == 2 and isinstance(e, ast.Call) and call_name(e) == "slice" and len(e.args) == 2 \
                 and const_value(e.args[0]) == 0 and isinstance(e.args[1], ast.Call) and call_name(e.args[1]) == "min" and {dotted(a) for a in e.args[1].args} == set(tv)
         ck.ob("C04.1", fn, d if d is not None else n.ast, ok, "the index is slice(0, min(old, new)) in every dimension (zip of both size tuples)")
-    # sizes are those of the matching parameters
-    src = ast.unparse(fn.node)
-    ck.ob("C04.1", fn, fn.node, has(src, '$old_size = $old_param.data.size()') and has(src, '$new_size = $param.data.size()') and has(src, '$old_param = $old_net_dict[$key]'),
+    # sizes are those of the matching parameters: wherever the two sizes are compared (or zipped into the index) one operand is the size of the
+    # new parameter of this iteration and the other the size of the old network's entry looked up under the same key
+    pairs = [roles.is_size_pair([x.left, x.comparators[0]], n) for n in cfg.live_nodes() if n.kind in ("stmt", "test") for x in [n.ast] + list(walk_no_nested(n.ast))
+             if isinstance(x, ast.Compare) and len(x.ops) == 1 and isinstance(x.ops[0], (ast.Eq, ast.NotEq))
+             and any(roles.kind(y, n) in ("old_size", "new_size") for y in (x.left, x.comparators[0]))]
+    pairs += [roles.is_size_pair(list(x.args), n) for n in cfg.live_nodes() if n.kind == "stmt" for x in walk_no_nested(n.ast)
+              if isinstance(x, ast.Call) and call_name(x) == "zip" and len(x.args) == 2]
+    ck.ob("C04.1", fn, fn.node, bool(pairs) and all(pairs),
           "old_size / new_size are the sizes of the same-named old and new parameter", construct="size sources")
+
+
+def _same_index(cfg: CFG, a: ast.AST, an: Node, b: ast.AST, bn: Node) -> bool:
+    """Both subscripts use the same index: the same text read at the same statement, or two locals / expressions that denote the same
+    single binding (temporaries looked through)."""
+    if an is bn and ast.unparse(a) == ast.unparse(b):
+        return True
+    (ra, rna), (rb, rnb) = _through(cfg, a, an), _through(cfg, b, bn)
+    if isinstance(ra, ast.Name) or isinstance(rb, ast.Name):
+        return isinstance(ra, ast.Name) and isinstance(rb, ast.Name) and ra.id == rb.id and cfg.defs_reaching(rna, ra.id) == cfg.defs_reaching(rnb, rb.id)
+    return ra is rb
 
 
 def _shrink_slices(ck: Check, repo: Repo, fn: Fn) -> None:
     cfg = CFG(fn.node)
     tb = TermBuilder(repo, fn, cfg=cfg, depth=0)
     old_p, new_p = fn.named_params[0], fn.named_params[1]
-    roles = _Roles(fn)
+    roles = _Roles(fn, cfg)
     sliced = [n for n in cfg.live_nodes() if n.kind == "stmt" and isinstance(n.ast, ast.Assign) and isinstance(n.ast.targets[0], ast.Subscript)]
     ck.floor("C04.2", len(sliced), 2, "sliced copies in shrink_preserve_parameters", fn=fn)
     for n in sliced:
@@ -355,12 +465,12 @@ def _shrink_slices(ck: Check, repo: Repo, fn: Fn) -> None:
             defs = cfg.defs_reaching(n, sl.upper.id)
             val = cfg.value_of_def(defs[0], sl.upper.id) if len(defs) == 1 else None
             okd = okd and isinstance(val, ast.Call) and call_name(val) == "min" and len(val.args) == 2 and not val.keywords \
-                and all(isinstance(a, ast.Subscript) and isinstance(a.value, ast.Name) and const_value(a.slice) == k for a in val.args) \
-                and roles.is_size_pair([a.value.id for a in val.args])
+                and all(isinstance(a, ast.Subscript) and const_value(a.slice) == k for a in val.args) \
+                and roles.is_size_pair([a.value for a in val.args], defs[0])
         ck.ob("C04.2", fn, n.ast, okd, "dimension k is cut at min(old_size[k], new_size[k])", detail=short(t.slice, 60))
         # rank guard: 1-D branch copies one dimension, the other branch two
-        rank1 = any(pol and any(isinstance(x, ast.Compare) and len(x.ops) == 1 and isinstance(x.ops[0], ast.Eq) and roles.is_rank_of_param(x.left)
-                                and const_value(x.comparators[0]) == 1 for x in ast.walk(g)) for g, pol, _ in cfg.guards_at(n))
+        rank1 = any(pol and any(isinstance(x, ast.Compare) and len(x.ops) == 1 and isinstance(x.ops[0], ast.Eq) and roles.is_rank_of_param(x.left, gt)
+                                and const_value(x.comparators[0]) == 1 for x in ast.walk(g)) for g, pol, gt in cfg.guards_at(n))
         ck.ob("C04.2", fn, n.ast, (len(dims) == 1) == rank1, "one index for 1-D parameters, two leading indices otherwise")
 
 
@@ -643,6 +753,11 @@ def _clone_overrides(ck: Check, repo: Repo) -> None:
 _MB = "agilerl/modules/base.py"
 _CNN = "agilerl/modules/cnn.py"
 VARIANTS = [
+    ("custom-encoder-rebuilt-from-net-config", "agilerl/networks/base.py", "            init_dict = self.encoder.init_dict\n            init_dict[\"num_outputs\"] = self.latent_dim\n            encoder = self.encoder_cls(**init_dict)",
+     "            init_dict = self.encoder.net_config\n            init_dict[\"num_outputs\"] = self.latent_dim\n            encoder = self.encoder_cls(**init_dict)", "fire", "C04.12"),
+    ("custom-encoder-description-copied-ok", "agilerl/networks/base.py", "            init_dict = self.encoder.init_dict\n            init_dict[\"num_outputs\"] = self.latent_dim\n            encoder = self.encoder_cls(**init_dict)",
+     "            description = copy.deepcopy(self.encoder.init_dict)\n            description[\"num_outputs\"] = self.latent_dim\n            encoder = self.encoder_cls(**description)", "silent", None),
+
     ("preserve-mode-not-carried-over", _MB, "        new_net.train(old_net.training)\n\n        return new_net\n\n    @staticmethod\n    def init_weights_gaussian", "        return new_net\n\n    @staticmethod\n    def init_weights_gaussian", "fire", "C04.1"),
     ("bert-rebuild-resets-live-parameters", "agilerl/modules/bert.py", "        return nn.ModuleDict(encoder_dict), nn.ModuleDict(decoder_dict)\n", "        self._reset_parameters()\n\n        return nn.ModuleDict(encoder_dict), nn.ModuleDict(decoder_dict)\n", "fire", "C04.11"),
     ("value-head-built-under-another-name", "agilerl/networks/value_networks.py", "            num_outputs=1,\n            name=\"value\",\n            net_config=net_config,", "            num_outputs=1,\n            name=\"critic\",\n            net_config=net_config,", "fire", "C04.9"),
@@ -678,4 +793,51 @@ VARIANTS += [
     ("shrink-rank-via-shape-ok", _CNN, "if len(param.data.size()) == 1:", "if len(param.shape) == 1:", "silent", None),
     ("clone-loads-into-self", _MB, "            clone.load_state_dict(self.state_dict())\n        except RuntimeError:", "            self.load_state_dict(clone.state_dict())\n        except RuntimeError:", "fire", "C04.5"),
     ("reinit-loads-into-offspring", "agilerl/hpo/mutation.py", "ind_shared.load_state_dict(offspring.state_dict(), strict=False)", "offspring.load_state_dict(ind_shared.state_dict(), strict=False)", "fire", "C04.4"),
+]
+_LOOKUP = "            if key in old_net_dict.keys():\n                old_param = old_net_dict[key]\n"
+_LOOP = ("        for key, param in new_net.named_parameters():\n            if key in old_net_dict.keys():\n                old_param = old_net_dict[key]\n"
+         "                old_size = old_param.data.size()\n                new_size = param.data.size()\n\n                if old_size == new_size:\n"
+         "                    # If the sizes are the same, just copy the parameter\n                    param.data = old_param.data\n"
+         "                elif \"norm\" not in key:\n                    # Create a slicing index to handle tensors with varying sizes\n"
+         "                    slice_index = tuple(\n                        slice(0, min(o, n)) for o, n in zip(old_size, new_size)\n                    )\n"
+         "                    param.data[slice_index] = old_param.data[slice_index]\n")
+_TAIL = "        new_net.train(old_net.training)\n\n        return new_net\n\n    @staticmethod\n    def init_weights_gaussian"
+_TAIL_TO = "\n        return new_net\n\n    @staticmethod\n    def init_weights_gaussian"
+_SLICED = "                    param.data[slice_index] = old_param.data[slice_index]"
+VARIANTS += [
+    # one obligation, several equivalent spellings: `d[k]` under `k in d` == `v = d.get(k)` under `v is not None`; a value passed directly == through a
+    # single-definition temporary; nested ifs == early continues; sizes named == written out.  Each pair: the equivalent form stays silent, its broken twin fires.
+    ("preserve-get-lookup-ok", _MB, _LOOKUP, "            old_param = old_net_dict.get(key)\n            if old_param is not None:\n", "silent", None),
+    ("preserve-get-lookup-default-none-ok", _MB, _LOOKUP, "            old_param = old_net_dict.get(key, None)\n            if not (old_param is None):\n", "silent", None),
+    ("shrink-get-lookup-ok", _CNN, _LOOKUP, "            old_param = old_net_dict.get(key)\n            if old_param is not None:\n", "silent", None),
+    ("preserve-get-lookup-extra-filter", _MB, _LOOKUP, "            old_param = old_net_dict.get(key)\n            if old_param is not None and \"bias\" not in key:\n", "fire", "C04.1"),
+    ("preserve-get-lookup-attribute-filter", _MB, _LOOKUP, "            old_param = old_net_dict.get(key)\n            if old_param is not None and old_param.requires_grad:\n", "fire", "C04.1"),
+    ("preserve-get-lookup-in-new-table", _MB, "        old_net_dict = dict(old_net.named_parameters())\n\n        for key, param in new_net.named_parameters():\n" + _LOOKUP,
+     "        old_net_dict = dict(new_net.named_parameters())\n\n        for key, param in new_net.named_parameters():\n            old_param = old_net_dict.get(key)\n            if old_param is not None:\n", "fire", "C04.1"),
+    ("preserve-get-lookup-other-key", _MB, _LOOKUP, "            old_param = old_net_dict.get(key.replace(\"0\", \"1\"))\n            if old_param is not None:\n", "fire", "C04.1"),
+    ("preserve-early-continue-get-ok", _MB, _LOOP,
+     "        for name, fresh in new_net.named_parameters():\n            trained = old_net_dict.get(name)\n            if trained is None:\n                continue\n\n"
+     "            if trained.data.size() == fresh.data.size():\n                fresh.data = trained.data\n                continue\n\n            if \"norm\" in name:\n                continue\n\n"
+     "            common = tuple(slice(0, min(o, n)) for o, n in zip(trained.shape, fresh.shape))\n            fresh.data[common] = trained.data[common]\n", "silent", None),
+    ("preserve-early-continue-drops-resized", _MB, _LOOP,
+     "        for name, fresh in new_net.named_parameters():\n            trained = old_net_dict.get(name)\n            if trained is None:\n                continue\n\n"
+     "            if trained.data.size() == fresh.data.size():\n                fresh.data = trained.data\n            continue\n\n"
+     "            common = tuple(slice(0, min(o, n)) for o, n in zip(trained.shape, fresh.shape))\n            fresh.data[common] = trained.data[common]\n", "fire", "C04.1"),
+    ("preserve-table-comprehension-ok", _MB, "        old_net_dict = dict(old_net.named_parameters())\n", "        old_net_dict = {k: v for k, v in old_net.named_parameters()}\n", "silent", None),
+    ("preserve-table-comprehension-of-new", _MB, "        old_net_dict = dict(old_net.named_parameters())\n", "        old_net_dict = {k: v for k, v in new_net.named_parameters()}\n", "fire", "C04.1"),
+    ("preserve-sizes-written-out-ok", _MB, "                if old_size == new_size:\n", "                if param.shape == old_param.shape:\n", "silent", None),
+    ("preserve-sizes-of-one-parameter", _MB, "                if old_size == new_size:\n", "                if old_param.shape == old_param.shape:\n", "fire", "C04.1"),
+    ("preserve-mode-through-temporary-ok", _MB, _TAIL, "        was_training = old_net.training\n        new_net.train(was_training)\n" + _TAIL_TO, "silent", None),
+    ("preserve-mode-of-new-through-temporary", _MB, _TAIL, "        was_training = new_net.training\n        new_net.train(was_training)\n" + _TAIL_TO, "fire", "C04.1"),
+    ("preserve-mode-returned-call-ok", _MB, _TAIL, "        return new_net.train(mode=old_net.training)\n\n    @staticmethod\n    def init_weights_gaussian", "silent", None),
+    ("preserve-mode-returned-call-on-old", _MB, _TAIL, "        return old_net.train(mode=old_net.training)\n\n    @staticmethod\n    def init_weights_gaussian", "fire", "C04.1"),
+    ("preserve-mode-eval-branch-ok", _MB, _TAIL, "        if not old_net.training:\n            new_net.eval()\n" + _TAIL_TO, "silent", None),
+    ("preserve-mode-eval-branch-inverted", _MB, _TAIL, "        if old_net.training:\n            new_net.eval()\n" + _TAIL_TO, "fire", "C04.1"),
+    ("preserve-value-through-temporary-ok", _MB, _SLICED, "                    kept = old_param.data[slice_index]\n                    param.data[slice_index] = kept", "silent", None),
+    ("preserve-value-through-temporary-other-index", _MB, _SLICED, "                    kept = old_param.data[: len(slice_index)]\n                    param.data[slice_index] = kept", "fire", "C04.1"),
+    ("preserve-value-through-temporary-from-new", _MB, _SLICED, "                    kept = param.data[slice_index]\n                    param.data[slice_index] = kept", "fire", "C04.1"),
+    ("preserve-norm-filter-else-branch-ok", _MB, "                elif \"norm\" not in key:\n                    # Create a slicing", "                elif \"norm\" in key:\n                    pass\n                else:\n                    # Create a slicing", "silent", None),
+    ("preserve-index-alias-ok", _MB, _SLICED, "                    same = slice_index\n                    param.data[slice_index] = old_param.data[same]", "silent", None),
+    ("preserve-index-in-place-ok", _MB, "                    slice_index = tuple(\n                        slice(0, min(o, n)) for o, n in zip(old_size, new_size)\n                    )\n" + _SLICED,
+     "                    param.data[tuple(slice(0, min(o, n)) for o, n in zip(old_size, new_size))] = old_param.data[tuple(slice(0, min(o, n)) for o, n in zip(old_size, new_size))]", "silent", None),
 ]
